@@ -235,6 +235,25 @@ def dec(rng, lo, hi, nd=3):
     return f"{s}{v // q}.{v % q:0{nd}d}"
 
 
+def unfold_positions(rng, pos, H, ppp=None, frac=0.35, mmax=3):
+    """unfolded coordinates (an `xu` trajectory): a fraction of the particles is moved by whole cell vectors
+    Σ_a m_a·H[a] (row-vector convention, m_a ∈ −mmax..mmax, only along periodic axes), exactly, on the decimal grid.
+    pos: rows of decimal strings, H: d×d decimal strings, ppp: 0/1 per axis (default all periodic)"""
+    from decimal import Decimal
+    d = len(H)
+    Hd = [[Decimal(str(x)) for x in row] for row in H]
+    per = [1] * d if ppp is None else [int(x) for x in ppp]
+    out = []
+    for row in pos:
+        if rng.random() < frac:
+            m = [rng.randint(-mmax, mmax) * per[a] for a in range(d)]
+            new = [Decimal(str(row[k])) + sum(m[a] * Hd[a][k] for a in range(d)) for k in range(d)]
+            out.append([format(v, "f") for v in new])
+        else:
+            out.append(list(row))
+    return out
+
+
 # ----------------------------------------------------------------------------- findings / evidence
 
 def load_known():
